@@ -17,7 +17,9 @@ def is_sym(v):
 
 
 def is_bool_sym(v):
-    return isinstance(v, Boolean) or (isinstance(v, sp.Symbol) and v.name.startswith("?"))
+    if isinstance(v, sp.Symbol):          # sympy Symbols are Boolean instances too: tell them apart by name
+        return v.name.startswith("?")
+    return isinstance(v, Boolean)
 
 
 def is_num(v):
@@ -372,8 +374,12 @@ def _min_max(it, name, args, kwargs):
         x = norm(x)
         # python: min(a, b) returns b only if b < a ; max(a, b) returns b only if b > a
         c = _cmp_scalar(it, ast.Lt() if name == "min" else ast.Gt(), x, acc)
-        if it.truth(c):
-            acc = x
+        if isinstance(c, bool) or it.cfg.get("fork_minmax", False):
+            if it.truth(c):
+                acc = x
+        else:
+            a, b = sym.to_sym(x), sym.to_sym(acc)
+            acc = a if a == b else sp.Piecewise((a, c), (b, True))
     return acc
 
 
@@ -418,7 +424,7 @@ def call_builtin(it, name, args, kwargs):
         if isinstance(v, np.ndarray):
             return elementwise(lambda x: call_builtin(it, "abs", [x], {}), v)
         if is_sym(v) and sym.is_symbolic(v):
-            if it.cfg.get("fork_abs", True):
+            if it.cfg.get("fork_abs", False):
                 return v if it.truth(sym.Ge(v, 0)) else -v
             return sp.Abs(v)
         return norm(abs(v))
